@@ -81,8 +81,11 @@ def w_inventory(ch: Choices) -> tuple[W, Inventory]:
 def _vector(ch: Choices, label: str, item: Callable[[Choices], tuple[W, Any]], small: int = 3, big: tuple[int, ...] = (0xFC, 0xFD)) -> tuple[W, list[Any]]:
     n = count(ch, label, small, big)
     w, items = W().cs(n), []
-    for _ in range(n):
-        wi, it = item(ch)
+    drawn: list[tuple[W, Any]] = []
+    for k in range(n):
+        if k < 8:
+            drawn.append(item(ch))
+        wi, it = drawn[k % 8]  # a long vector repeats its first eight entries: the count is what is being exercised
         w.sub(wi)
         items.append(it)
     return w, items
@@ -119,18 +122,18 @@ def _empty(cls: Any) -> Callable[[Choices, Pool], tuple[W, Any]]:
 
 
 def _addr(ch: Choices, pool: Pool) -> tuple[W, Any]:
-    w, items = _vector(ch, "addr.n", w_timed_netaddr, big=(0xFD, 1000))
+    w, items = _vector(ch, "addr.n", w_timed_netaddr, big=(0xFD, 1000, 999))
     return w, p2p.Addr(items, check_validity=False)
 
 
 def _addrv2(ch: Choices, pool: Pool) -> tuple[W, Any]:
-    w, items = _vector(ch, "addr2.n", w_netaddr_v2, big=(0xFD,))
+    w, items = _vector(ch, "addr2.n", w_netaddr_v2, big=(0xFD, 1000, 999))
     return w, p2p.AddrV2(items, check_validity=False)
 
 
 def _inv(cls: Any) -> Callable[[Choices, Pool], tuple[W, Any]]:
     def gen(ch: Choices, pool: Pool) -> tuple[W, Any]:
-        w, items = _vector(ch, "inv.n", w_inventory)
+        w, items = _vector(ch, "inv.n", w_inventory, big=(0xFC, 0xFD, 0xFD, 50000, 49999))
         return w, cls(items, check_validity=False)
 
     return gen
@@ -151,7 +154,7 @@ def _headers(ch: Choices, pool: Pool) -> tuple[W, Any]:
         wh, header = w_header(c)
         return wh.put(b"\x00", "count"), header  # the transaction count, always 0
 
-    w, items = _vector(ch, "hdrs.n", item, 3, (0xFD,))
+    w, items = _vector(ch, "hdrs.n", item, 3, (0xFD, 2000, 1999))
     return w, p2p.Headers(items, check_validity=False)
 
 
@@ -249,7 +252,7 @@ def _cfilter(ch: Choices, pool: Pool) -> tuple[W, Any]:
 
 def _cfheaders(ch: Choices, pool: Pool) -> tuple[W, Any]:
     type_, stop, prev = _filter_type(ch), ch.nbytes(32, "cf.stop"), ch.nbytes(32, "cf.prev")
-    wv, hashes = _hashes(ch, "cf.n", 3, (0xFD, 2000))
+    wv, hashes = _hashes(ch, "cf.n", 3, (0xFD, 2000, 1999))
     return W().put(bytes([type_]), "flag").put(stop[::-1]).put(prev[::-1]).sub(wv), p2p.CFHeaders(type_, stop, prev, hashes, check_validity=False)
 
 
